@@ -74,6 +74,13 @@ def check_phases(case, ctx):
             if set(ph.elements) != want_el:
                 ctx.fail('C07.phases/elements', 'step %s phase %d: %r vs %r' % (step, k, sorted(ph.elements), sorted(want_el)))
                 return False
+            # every member carries a phase back-reference (the rate expressions read the site density through it); a species
+            # that went through several phases keeps the last one it was given, so only "none at all" is judged
+            for sp_ in ph.species:
+                if getattr(sp_, 'phase', None) is None:
+                    ctx.fail('C07.phases/member-without-back-reference', 'step %s: %s is listed by %s but has no phase attribute' % (
+                        step, sp_.name, ph.name))
+                    return False
         return True
     if not verify('construction'):
         return
@@ -157,6 +164,8 @@ def reactor_case(draw):
         if form == 'omit':
             continue
         val = draw(st.integers(1, 500)) if form in ('int', 'np.int64') else draw(st.floats(0.5, 500).map(lambda v: round(v, 3)))
+        if form != 'str' and draw(st.integers(0, 9)) == 0:
+            val = 0 if form in ('int', 'np.int64') else 0.0       # zero is a value too (batch reactor: no flow)
         opts[name] = {'form': form, 'value': val}
     for name, (_, _, choices) in PLAIN_OPTS.items():
         if draw(st.integers(0, 2)) == 0:
